@@ -20,7 +20,9 @@ open Wm Wm.Poison Wm.Relay
          →  P<n>[:<topic>|<uuid>|<payload>|<meta>|<unsettled>;…] S:<ack|nack>
     fpub <cfgTopic> <topic> <- | uuid|payload|meta;…> <dest>
          →  C<n>[:<topic>|<k>|<dest>~<uuid>~<payload>~<meta>+…;…] E:<0|1> U:<fresh envelope uuids>
-    e2e <s|g> <cfgTopic> <ack> <topic> <uuid> <payload> <meta> <dest>
+    fpubr <cfgTopic> <topic1> <topic2> <msgs> <dest1> <dest2>     the caller hands ONE batch to the Publisher twice (second
+         destination, or a retry): observation = the fpub observation of the first call followed by that of the second
+    e2e <s|g|gr> <cfgTopic> <ack> <topic> <uuid> <payload> <meta> <dest>
          →  F:<publisher error> P<n>[…as fwd…] S:<ack|nack|->
     faninctor <sources|-> <target>               →  ok | err
     fanin <sources> <target> <index> <dest> <uuid> <payload> <meta>
@@ -307,7 +309,7 @@ def e2eModel (transport : String) (cfg : Str) (ack : Bool) (topic : Str) (m : Ms
   | false, [(_, [e])] =>
     let r := forwarder ack (.env e) dest
     "F:0 " ++ showEntries "P" (fwdEntries r) ++ " S:" ++ showSettle r.settle
-  | _, _ => if transport == "g" then "F:1 P0 S:ack" else "F:1 P0 S:-"
+  | _, _ => if transport != "s" then "F:1 P0 S:ack" else "F:1 P0 S:-"
 
 def e2eMonitor (topic : Str) (m : Msg) (dest : POut) (f : List String) : String := Id.run do
   match f with
@@ -404,6 +406,9 @@ def handleM : List String → String
   | ["fwdtopic", t] => match hexDec t with
     | some t => hexEnc (effTopic t)
     | none => "bad-op"
+  | ["fwdtopic", t, "r"] => match hexDec t with      -- Forwarder on a Router supplied by the caller: same default
+    | some t => hexEnc (effTopic t)
+    | none => "bad-op"
   | ["fwd", a, e, d, _, _] => match parseBit a, parseParsed e, parseDest d with
     | some a, some e, some d => fwdModel a e d
     | _, _, _ => "bad-op"
@@ -412,9 +417,15 @@ def handleM : List String → String
       -- scope of the Forwarder clauses: topic, uuid and metadata are valid UTF-8 (JSON is the wire contract)
       if ms.all (fun m => (wrap t m).utf8) && validUtf8 t then fpubModel c t ms d else "bad-op"
     | _, _, _, _ => "bad-op"
+  | ["fpubr", c, t1, t2, ms, d1, d2] => match hexDec c, hexDec t1, hexDec t2, parseMsgs ms, parseDest d1, parseDest d2 with
+    | some c, some t1, some t2, some ms, some d1, some d2 =>
+      -- the caller's batch is the caller's: the second call envelopes the same messages as the first
+      if ms.all (fun m => (wrap t1 m).utf8 && (wrap t2 m).utf8) && validUtf8 t1 && validUtf8 t2
+      then fpubModel c t1 ms d1 ++ " " ++ fpubModel c t2 ms d2 else "bad-op"
+    | _, _, _, _, _, _ => "bad-op"
   | ["e2e", tr, c, a, t, u, p, m, d] => match hexDec c, parseBit a, hexDec t, parseMsg u p m, parseDest d with
     | some c, some a, some t, some m, some d =>
-      if (tr == "s" || tr == "g") && (wrap t m).utf8 then e2eModel tr c a t m d else "bad-op"
+      if (tr == "s" || tr == "g" || tr == "gr") && (wrap t m).utf8 then e2eModel tr c a t m d else "bad-op"
     | _, _, _, _, _ => "bad-op"
   | ["faninctor", ss, t] => match parseHexList ss, hexDec t with
     | some ss, some t => if (FanInCfg.mk ss t).valid then "ok" else "err"
@@ -431,7 +442,7 @@ def handleM : List String → String
 def handleP (req obs : List String) : String :=
   match req with
   | ["crash", _] => "violated:panic"
-  | ["atoi", _] | ["itoa", _] | ["utf8", _] | ["fwdtopic", _] | ["faninctor", _, _] =>
+  | ["atoi", _] | ["itoa", _] | ["utf8", _] | ["fwdtopic", _] | ["fwdtopic", _, "r"] | ["faninctor", _, _] =>
     -- library / construction behaviour: the statement does not speak about it; the model diff does
     if handleM req == "bad-op" then "bad-op" else "ok"
   | "rq" :: rest => match parseRq rest with
@@ -447,6 +458,14 @@ def handleP (req obs : List String) : String :=
     | some _, some t, some ms, some d =>
       if ms.all (fun m => (wrap t m).utf8) && validUtf8 t then fpubMonitor t ms d obs else "bad-op"
     | _, _, _, _ => "bad-op"
+  | ["fpubr", c, t1, t2, ms, d1, d2] => match hexDec c, hexDec t1, hexDec t2, parseMsgs ms, parseDest d1, parseDest d2 with
+    | some _, some t1, some t2, some ms, some d1, some d2 =>
+      if !(ms.all (fun m => (wrap t1 m).utf8 && (wrap t2 m).utf8) && validUtf8 t1 && validUtf8 t2) || obs.length != 6 then "bad-op"
+      else match fpubMonitor t1 ms d1 (obs.take 3), fpubMonitor t2 ms d2 (obs.drop 3) with
+        | "ok", "ok" => "ok"
+        | "ok", v2 => if v2 == "bad-op" then v2 else "violated:second_publish_of_batch:" ++ dropS v2 9
+        | v1, _ => v1
+    | _, _, _, _, _, _ => "bad-op"
   | ["e2e", _, c, a, t, u, p, m, d] => match hexDec c, parseBit a, hexDec t, parseMsg u p m, parseDest d with
     | some _, some _, some t, some m, some d => if (wrap t m).utf8 then e2eMonitor t m d obs else "bad-op"
     | _, _, _, _, _ => "bad-op"
